@@ -6,10 +6,14 @@
 
 mod bisim;
 mod cmodel;
+mod codec;
 mod ev;
+mod gen;
 mod mon;
 mod prog;
+mod reg;
 mod sdesc;
+mod settingsgen;
 mod sim;
 
 use ev::*;
